@@ -65,6 +65,138 @@ def abandoned_after_cancel(obs, sid):
     return bool(cancels) and min(cancels) > start
 
 
+async def pair_scenario(loop, case):
+    """two real endpoints joined by a link the harness drives; every interaction the client starts ends by completion or by a
+    cancellation at a chosen moment; at quiescence both stream tables and both reassembly caches must be empty"""
+    import random
+    from datetime import timedelta
+    from rsocket.rsocket_client import RSocketClient
+    from rsocket.rsocket_server import RSocketServer
+    from rsocket.helpers import single_transport_provider
+    from rsocket.request_handler import BaseRequestHandler
+    from rsocket.payload import Payload
+    from harness import link as L
+    rng = random.Random(case['seed'])
+    pubs, futs = [], []
+
+    class Pub:
+        def __init__(self, items):
+            self.items, self.sub, self.credit, self.cancelled, self.done = items, None, 0, False, False
+
+        def subscribe(self, subscriber):
+            self.sub = subscriber
+            pub = self
+
+            class S:
+                def request(self, n): pub.credit += n
+                def cancel(self): pub.cancelled = True
+            subscriber.on_subscribe(S())
+
+        def pump(self):
+            if self.sub is None or self.done or self.cancelled or self.credit <= 0:
+                return False
+            self.credit -= 1
+            if self.items > 0:
+                self.items -= 1
+                self.sub.on_next(Payload(b'i'), self.items == 0)
+                self.done = self.items == 0
+            else:
+                self.sub.on_complete()
+                self.done = True
+            return True
+
+    class Sub:
+        def __init__(self): self.subscription, self.events = None, []
+        def on_subscribe(self, s): self.subscription = s; s.request(2 ** 31 - 1)
+        def on_next(self, v, is_complete=False): self.events.append('n')
+        def on_complete(self): self.events.append('c')
+        def on_error(self, e): self.events.append('e')
+
+    class H(BaseRequestHandler):
+        async def request_response(self, payload):
+            f = asyncio.get_event_loop().create_future()
+            futs.append(f)
+            return f
+
+        async def request_stream(self, payload):
+            p = Pub(2)
+            pubs.append(p)
+            return p
+
+        async def request_channel(self, payload):
+            p = Pub(1)
+            pubs.append(p)
+            return p, Sub()
+    import asyncio
+    lk = L.Link(loop, case['tcp'])
+    server = RSocketServer(lk.ends[1], handler_factory=H, fragment_size_bytes=case['frag'])
+    client = RSocketClient(single_transport_provider(lk.ends[0]), fragment_size_bytes=case['frag'],
+                           keep_alive_period=timedelta(seconds=100000), max_lifetime_period=timedelta(seconds=1000000))
+    await client.connect()
+    await loop.settle()
+    while await lk.deliver(0, rng):
+        await loop.settle()
+    started = []       # (plan, handle, deliveries seen at start)
+    deliveries = 0
+    todo = list(case['plans'])
+    idle = 0
+    for rnd in range(3000):
+        did = False
+        if todo and rng.random() < 0.5:
+            pl = todo.pop(0)
+            payload = Payload(b'q' * pl['size'])
+            if pl['kind'] == 'rr':
+                h = client.request_response(payload)
+            elif pl['kind'] == 'stream':
+                h = Sub()
+                client.request_stream(payload).initial_request_n(pl['n0']).subscribe(h)
+            else:
+                h = Sub()
+                cp = Pub(1)
+                pubs.append(cp)
+                client.request_channel(payload, publisher=cp).initial_request_n(pl['n0']).subscribe(h)
+            started.append([pl, h, deliveries, False])
+            did = True
+        for st in started:
+            pl, h, d0, fired = st
+            if not fired and pl['cancel'] is not None and deliveries - d0 >= pl['cancel']:
+                st[3] = True
+                if pl['kind'] == 'rr':
+                    h.cancel()
+                elif h.subscription is not None:
+                    h.subscription.cancel()
+                did = True
+        for _ in range(2):
+            if rng.random() < 0.7 and await lk.deliver(rng.randint(0, 1), rng):
+                deliveries += 1
+                did = True
+        for p in list(pubs):
+            if rng.random() < 0.6 and p.pump():
+                did = True
+        if futs and rng.random() < 0.3:
+            f = futs.pop(rng.randrange(len(futs)))
+            if not f.done():
+                f.set_result(Payload(b'r'))
+            did = True
+        await loop.settle()
+        if not did and not todo and not lk.pending(0) and not lk.pending(1) and not [f for f in futs if not f.done()]:
+            idle += 1
+            if idle > 3 and all(p.done or p.cancelled or p.credit == 0 or p.sub is None for p in pubs):
+                break
+        else:
+            idle = 0
+    res = {'tables': [sorted(client._stream_control._streams), sorted(server._stream_control._streams)],
+           'caches': [sorted(client._frame_fragment_cache._frames_by_stream_id), sorted(server._frame_fragment_cache._frames_by_stream_id)],
+           'stuck_publishers': len([p for p in pubs if p.sub is not None and not p.done and not p.cancelled]), 'rounds': rnd,
+           'unfinished': len([1 for pl, h, d0, fired in started if pl['cancel'] is not None and not fired])}
+    try:
+        await client.close()
+        await server.close()
+    except Exception:
+        pass
+    return res
+
+
 class C10(EngineProp):
     id = 'C10'
     lean_modules = ['RSocketModel.Props.C10']
@@ -76,6 +208,52 @@ class C10(EngineProp):
     rule = ('as C07; at quiescence the stream table and fragment cache of the endpoint are read and every interaction that terminated (by the definition in DESIGN §5 C10) must be '
             'absent; terminated peer-opened ids are then re-used by a probe request')
     assumptions = ['quiescence = the deterministic loop is idle']
+
+    def cases(self, rng, tier):
+        out = super().cases(rng, tier)
+        for _ in range(250 if tier == 'quick' else 5000):
+            plans = [{'kind': rng.choice(['rr', 'stream', 'stream', 'channel']), 'size': rng.choice([0, 30, 200, 400]), 'n0': rng.choice([1, 2, 2 ** 31 - 1]),
+                      'cancel': rng.choice([None, 0, 0, 1, 2, 3, 5])} for _ in range(rng.randint(1, 4))]
+            out.append({'mode': 'pair', 'role': 'both', 'profile': 'pair', 'seed': rng.getrandbits(32), 'tcp': rng.random() < 0.4, 'frag': rng.choice([None, 64, 64]), 'plans': plans})
+        return out
+
+    def run_impl(self, case):
+        if case.get('mode') == 'pair':
+            from harness import detloop
+            return detloop.run(pair_scenario, case)
+        return super().run_impl(case)
+
+    def model_lines(self, case, obs):
+        return [] if case.get('mode') == 'pair' else super().model_lines(case, obs)
+
+    def compare(self, case, obs, answers):
+        return None if case.get('mode') == 'pair' else super().compare(case, obs, answers)
+
+    def nontrivial(self, case, obs):
+        if case.get('mode') == 'pair':
+            import json
+            return json.dumps(case, sort_keys=True)
+        return super().nontrivial(case, obs)
+
+    def stats(self, case, obs):
+        if case.get('mode') == 'pair':
+            yield 'mode=pair'
+            return
+        yield from super().stats(case, obs)
+
+    def shrink_candidates(self, case):
+        if case.get('mode') == 'pair':
+            pl = case['plans']
+            for i in range(len(pl)):
+                if len(pl) > 1:
+                    yield dict(case, plans=pl[:i] + pl[i + 1:])
+            return
+        yield from super().shrink_candidates(case)
+
+    def explicit(self, case, obs):
+        if case.get('mode') == 'pair':
+            return case
+        return super().explicit(case, obs)
 
     async def epilogue(self, loop, H, case):
         # re-use the id of every terminated peer-opened stream: a fresh fire-and-forget on it must be accepted
@@ -94,6 +272,15 @@ class C10(EngineProp):
 
     def oracle(self, case, obs):
         fails = []
+        if case.get('mode') == 'pair':
+            if obs['unfinished'] or obs['stuck_publishers'] and not (obs['tables'][0] or obs['tables'][1]):
+                return fails
+            for side, name in ((0, 'client'), (1, 'server')):
+                if obs['tables'][side]:
+                    fails.append({'signature': 'pair:stream-left-registered:' + name, 'what': 'at quiescence the %s still has streams %s registered (every interaction was completed or cancelled)' % (name, obs['tables'][side])})
+                if obs['caches'][side]:
+                    fails.append({'signature': 'pair:partial-frame-left:' + name, 'what': 'at quiescence the %s still holds partial frames for streams %s' % (name, obs['caches'][side])})
+            return fails
         h, stim = histories(obs)
         table, cache = set(obs['final']['table']), set(obs['final']['cache'])
         live = {}
